@@ -85,7 +85,7 @@ def main(spec):
         ex = ProcessPoolExecutor(2); kw = {"parallel": True, "executor": ex}
     storage = spec["storage"]
     if spec.get("other"):       # per-output storage mix: the listed functions use the other one of file_array / dict
-        alt = "dict" if storage != "dict" else "file_array"
+        alt = "dict" if storage not in ("dict", "shared_memory_dict") else "file_array"
         storage = {"": storage}
         for f in spec["desc"]["funcs"]:
             if f["name"] in spec["other"]:
